@@ -410,10 +410,18 @@ func (r *rwRT) coverShape(fn *ssa.Function, pos, kind string, in0 *astInput) {
 	r.account(in)
 	construct := in0.desc
 	accepted := 0
-	var fieldBad, deepBad, lossBad []string
+	var fieldBad, deepBad, lossBad, stateBad []string
 	var sampleAccept string
 	for _, o := range outs {
 		if o.Panicked {
+			if os.Getenv("VERIF_DEBUG_PANICS") != "" {
+				for i := len(o.St.Events) - 1; i >= 0; i-- {
+					if o.St.Events[i].Kind == "panic" {
+						fmt.Fprintf(os.Stderr, "PANIC %s | %s | %s | %s\n", in0.desc, o.St.Events[i].Note, o.St.Events[i].Stack, r.w.Pos(o.St.Events[i].Pos))
+						break
+					}
+				}
+			}
 			continue
 		}
 		if o.St.Truncated {
@@ -479,6 +487,40 @@ func (r *rwRT) coverShape(fn *ssa.Function, pos, kind string, in0 *astInput) {
 			if e.Kind == "call" && e.Fn != nil && inRw(e.Fn) && (e.Fn.Name() == "push" || e.Fn.Name() == "pushReturn") && len(e.Args) >= 2 {
 				for l := range reachSet(o.St, e.Args[1], in0.leaves) {
 					emitted[l] = true
+				}
+			}
+		}
+		// RW.BLOCKSTATE (typestate of the output blocks): block.push asserts that the combine check has run
+		// since the previous push. A block handed back by the recursion (rewriteStmt / rewriteStmts may have
+		// pushed into it, or return another block) is unchecked until combineIfNecessary / markCombined.
+		{
+			unchecked := map[string]bool{}
+			for _, e := range o.St.Events {
+				if e.Kind != "call" || e.Fn == nil || !inRw(e.Fn) || len(e.Args) == 0 {
+					continue
+				}
+				switch e.Fn.Name() {
+				case "rewriteStmt", "rewriteStmts":
+					last := e.Args[len(e.Args)-1]
+					if _, isSym := unwrapDyn(last).(Sym); isSym {
+						unchecked[argLabel(last)] = true
+					}
+					if e.Ret != nil {
+						if _, isSym := unwrapDyn(e.Ret).(Sym); isSym {
+							unchecked[argLabel(e.Ret)] = true
+						}
+					}
+				case "markCombined":
+					delete(unchecked, argLabel(e.Args[0]))
+				case "push", "pushReturn":
+					if _, isSym := unwrapDyn(e.Args[0]).(Sym); !isSym {
+						continue
+					}
+					l := argLabel(e.Args[0])
+					if unchecked[l] {
+						stateBad = append(stateBad, fmt.Sprintf("a statement is pushed into the block %s right after the recursion handed it back, without combineIfNecessary in between: block.push asserts combineChecked and panics with \"illegal state\" (e.g. a switch whose initialiser is a delegation and whose cases do not yield): %s", l, pathSummary(o)))
+					}
+					unchecked[l] = true
 				}
 			}
 		}
@@ -624,6 +666,13 @@ func (r *rwRT) coverShape(fn *ssa.Function, pos, kind string, in0 *astInput) {
 			c.ok("RW.NOLOSS", construct, pos, "on every accepting path each part of the source statement (initialiser, condition, post statement, tag, clause lists, bodies, operands) reaches the output: emitted, or rewritten by the recursion whose result is emitted")
 		} else {
 			c.bad("RW.NOLOSS", construct, pos, lossBad[0], lossBad...)
+		}
+	}
+	if accepted > 0 {
+		if len(stateBad) == 0 {
+			c.ok("RW.BLOCKSTATE", construct, pos, "every push into an output block is preceded by the combine check since the previous push / since the recursion handed the block back")
+		} else {
+			c.bad("RW.BLOCKSTATE", construct, pos, stateBad[0], stateBad...)
 		}
 	}
 	if hasNested {
